@@ -596,6 +596,23 @@ pub fn create_proofs_line<S: ShortGroupSignatureScheme>(credentials: &IndexMap<S
     Some((line, format!("{} D {}", if out.is_empty() { "-".to_string() } else { out.join(";") }, if dis.is_empty() { "-".to_string() } else { dis.join(";") })))
 }
 
+/// `tr.markers`: the order of the statement-id markers (`append_message(b"", id)`) in the main transcript of a fresh
+/// `create` run and of the verifier's run on `q`, vs. the model's `createMarkers` / `verifyMarkers`
+pub fn markers_line<S: ShortGroupSignatureScheme>(credentials: &IndexMap<String, PresentationCredential<S>>, schema: &PresentationSchema<S>, nonce: &[u8], q: &Presentation<S>) -> Option<(String, String)> {
+    let line = create_line(credentials, schema)?.replacen("cr.ok", "tr.markers", 1);
+    merlin::vlog::take();
+    merlin::vlog::enable(true);
+    let _ = call(|| Presentation::create(credentials, schema, nonce));
+    merlin::vlog::enable(false);
+    let plog = merlin::vlog::take();
+    let (_, _, vlog) = verify_logged(q, schema, nonce);
+    let marks = |log: &[merlin::vlog::Entry]| -> String {
+        let v: Vec<String> = crate::adv::main_items(log).iter().filter(|(l, _)| l.is_empty()).map(|(_, d)| hx(&String::from_utf8_lossy(d))).collect();
+        if v.is_empty() { "-".to_string() } else { v.join(",") }
+    };
+    Some((line, format!("P:{} V:{}", marks(&plog), marks(&vlog))))
+}
+
 /// model lines for the predicate verifiers that share a response with the signature proof (commitment,
 /// verifiable encryption): the recomputed commitments the real verifier hashed for `q` vs. the model's
 /// `commitmentRecommit` / `elgamalRecommit` fed with the model's own sorted lookup of the linked response
